@@ -22,7 +22,9 @@ run over the *delivered event sequence*; monitors:
 Real-handler leg (engine B, vf/tcphandler.py; every 4th worker): the same TCPLayer inside the real ProxyConnectionHandler on
 the virtual-time loop with in-memory sockets -- handle_connection (parked half-closed handlers), open_connection, hook tasks,
 drain_writers, the inactivity watchdog, close_connection and the teardown of handle_client are mitmproxy's own asyncio code.
-Plans: regular (next_layer -> TCPLayer) or reverse:tcp:// with eager/lazy connect; connect ok/refused/hanging/slow; both peers
+Plans: regular (next_layer -> TCPLayer) or reverse:tcp:// with eager/lazy connect; connect ok/hanging/slow or failing with each
+OSError class with and without a message (refused, timeout, bare OSError, errno with empty text, unreachable, gaierror; a fixed
+matrix error x message/bare x regular/eager/lazy walked by every 4th handler case, followed by client data); both peers
 send timed data then EOF / reset / fall silent (half-closes from either side, data after the half-close); tcp_timeout 5 s or
 600 s; drain() failing on either socket with each OSError class (ECONNRESET, EPIPE, ECONNABORTED = ConnectionError; ETIMEDOUT,
 EHOSTUNREACH, ENETUNREACH, EIO = not), once or sticky with failing reads, at the 1st-3rd drain, as a fixed matrix walked by every
@@ -30,6 +32,7 @@ EHOSTUNREACH, ENETUNREACH, EIO = not), once or sticky with failing reads, at the
 hooks; edits.  Monitors once the handler has returned and all tasks have drained:
   handler.single_end  every flow that fired tcp_start fired exactly one of tcp_end / tcp_error, and no tcp_message after it
   handler.no_crash    the handler logged nothing at level ERROR ("mitmproxy has crashed!", "connection handler has crashed")
+  handler.connect_failed  a failed connect gives exactly one tcp_error (flow.error set), no tcp_message, nothing relayed; eager: no flow
   handler.exact       per direction, what the peer's socket received is a prefix of the recorded (edited) message contents and
                       the recorded original contents are a prefix of what the other peer sent; in clean plans (both peers end
                       with EOF, nothing fails) both are equalities and the flow ends with tcp_end
@@ -49,7 +52,7 @@ BUDGET = {"quick": (2000, 18), "thorough": (60000, 200)}
 WORKERS = {"quick": 4, "thorough": 16}
 REQUIRED = [
     "source", "exact", "halfclose", "single_end", "after_end", "fault.open_failed", "fault.client_eof_first", "fault.server_eof_first", "fault.eof_during_pending_hook", "injected",
-    "handler.cases", "handler.single_end", "handler.no_crash", "handler.exact", "handler.exact_clean", "handler.halfclose_then_timeout", "handler.halfclose_then_data", "handler.idle_timeout", "handler.drain_error", "handler.data_after_drain_error", "fault.drain_oserror_non_connection", "fault.drain_connection_error", "handler.reset", "handler.slow_hook",
+    "handler.cases", "handler.single_end", "handler.no_crash", "handler.exact", "handler.exact_clean", "handler.halfclose_then_timeout", "handler.halfclose_then_data", "handler.idle_timeout", "handler.drain_error", "handler.data_after_drain_error", "fault.drain_oserror_non_connection", "fault.drain_connection_error", "handler.connect_failed", "connect.fails_with_empty_message", "connect.fails_with_message", "handler.reset", "handler.slow_hook",
 ]
 TECHNIQUE = "runtime monitoring: fault-plan sweep on the sans-io driver + reference relay model over the delivered event sequence; fault plans on the real ConnectionHandler under virtual time"
 RULE = (
@@ -394,8 +397,15 @@ def run_handler(ctx):
 
     for i in ctx.cases():
         r = ctx.rng
-        # every 2nd handler case walks the fixed drain-fault matrix (errno class x socket x n-th drain x one-shot/sticky)
-        plan = th.matrix_plan(r, (i // 2) * max(1, ctx.nworkers // 4) + ctx.worker // 4) if i % 2 == 0 else th.gen_plan(r)
+        # handler cases alternate: fixed drain-fault matrix (errno class x socket x n-th drain x one-shot/sticky), random plan, fixed
+        # connect-failure matrix (error class with/without message x regular / reverse eager / reverse lazy), random plan
+        lane = max(1, ctx.nworkers // 4)
+        if i % 4 == 0:
+            plan = th.matrix_plan(r, (i // 4) * lane + ctx.worker // 4)
+        elif i % 4 == 2:
+            plan = th.connect_matrix_plan(r, (i // 4) * lane + ctx.worker // 4)
+        else:
+            plan = th.gen_plan(r)
         try:
             res = th.run_plan(plan)
         except Exception as e:  # noqa
@@ -464,6 +474,21 @@ def run_handler(ctx):
                 ctx.violation("handler:flow-still-live-after-tcp_end", witness)
             elif ends[0]["name"] == "tcp_error" and any(f.live for f in res.flows.values()):
                 ctx.count("handler.flow_live_after_tcp_error")  # not part of the statement: counted only
+        # ---- a failed upstream connect: the flow (if one exists) ends with tcp_error and relays nothing; eager: no flow at all
+        if res.connect_failures and not res.connected:
+            ctx.count("handler.connect_failed")
+            ctx.count("connect.fails_with_empty_message" if res.connect_failures[0][2] == "" else "connect.fails_with_message")
+            ctx.seen("connect_failure_cells", f"{res.connect_failures[0][1]}/{plan['mode']}/{plan['connection_strategy']}/flow={bool(started)}")
+            eager = plan["mode"] == "reverse" and plan["connection_strategy"] == "eager"
+            if eager and started:
+                ctx.violation("handler:tcp-flow-created-although-eager-connect-failed", witness)
+            elif started and not life:
+                if msgs:
+                    ctx.violation("handler:message-relayed-although-connect-failed", {**witness, "messages": [m["pre"][:12] for m in msgs]})
+                elif len(ends) == 1 and ends[0]["name"] != "tcp_error":
+                    ctx.violation("handler:failed-connect-ended-with-tcp_end", witness)
+                elif any(f.error is None for f in res.flows.values()):
+                    ctx.violation("handler:failed-connect-flow-without-error", witness)
         # ---- exactness per direction
         t_client_end = next((h["t0"] for h in res.hooks if h["name"] == "client_disconnected"), None)
         clean = plan["clean"]
